@@ -291,6 +291,28 @@ def run(index, rep, tier):
                               "%s invents `%s` until `%s` and then calls require_taxon(label=%s): the probe compares spellings exactly while require_taxon matches by the namespace's case rule (case-insensitive by default), so with a supplied namespace [t1, t2, t3] the label T1 passes the probe, require_taxon returns the existing t1, and that taxon ends up on two leaves - N leaves no longer carry N distinct taxa" % (f.qualname, lab, norm(tests[0].test)[:50] if tests else "?", lab))
         rep.floor("R18.11", "label-inventing loops feeding require_taxon", 2, nprobe)
 
+    # ---- R18.12 the simulators leave the namespace as they found it; rates are real numbers
+    with rep.section("R18.12"):
+        rep.rule("R18.12", "(a) assigning taxa to the tips never changes the namespace except by adding taxa through its interface: the tree model takes no mutable alias of the namespace's private containers (Tree.randomly_assign_taxa draws from a copy of the taxon list); (b) rates are real numbers: the simulation and probability code contains no floor division - `n // rate` is n / rate only for the rates the tests use (1.0, integers) and 0 or a coarser rate otherwise")
+        na = foreign_private_rule(index, rep, "R18.12", ["dendropy.datamodel.treemodel._tree"])
+        rt = index.function("dendropy.datamodel.treemodel._tree.Tree.randomly_assign_taxa")
+        for w in writes_in(rt.node):
+            na += 1
+            if w.base is not None and "taxon_namespace" in norm(w.base) and w.kind in ("mutcall", "substore", "subdel", "store", "augstore"):
+                rep.check(False, "R18.12", rt.qualname, "the namespace's `%s` is changed in place" % w.attr, fn_where(rt, w.stmt), "",
+                          "Tree.randomly_assign_taxa changes `%s.%s` (`%s`): drawing taxa for the tips must not remove them from the namespace" % (norm(w.base), w.attr, norm_stmt(w.stmt)[:60]))
+        rep.floor("R18.12", "writes examined in the tree model", 1, na)
+        nd = 0
+        for m in PROP_MODULES["C18"]:
+            for fi in index.functions_in_module(m):
+                for x in walk_no_nested(fi.node):
+                    op = x.op if isinstance(x, (ast.BinOp, ast.AugAssign)) else None
+                    if isinstance(op, (ast.Div, ast.FloorDiv)):
+                        nd += 1
+                        rep.check(not isinstance(op, ast.FloorDiv), "R18.12", fi.qualname, "floor division `%s`" % (norm(x) if isinstance(x, ast.BinOp) else norm_stmt(x))[:50], fn_where(fi, x), "",
+                                  "%s computes `%s` with floor division: rates, times and probabilities are real numbers, and the quotient is silently rounded down - a waiting time drawn with rate floor(n / birth_rate) instead of n / birth_rate has the wrong distribution for every non-integer ratio and divides by zero when the ratio is below one" % (fi.qualname, (norm(x) if isinstance(x, ast.BinOp) else norm_stmt(x))[:60]))
+        rep.floor("R18.12", "divisions in the simulation code", 20, nd)
+
 
 def _distinct_labels_rule(index, rep):
     """R18.3: `require_taxon(label=L)` returns an *existing* taxon when the label is taken, so a
